@@ -1328,6 +1328,16 @@ class Interp:
                     return fn(*args)
                 except Exception as ex:  # pylint: disable=W0718
                     raise Raised(type(ex).__name__)
+        if ckey in ("datetime.datetime", "datetime.datetime.strptime", "datetime.strptime", "datetime.timedelta", "datetime.date") and not any(
+                isinstance(a, (Residual, Obj)) for a in list(args) + list(kwargs.values())) and "datetime" not in frame:
+            # constructing / parsing a date from concrete values is pure
+            import datetime as _dt
+            fn = {"datetime.datetime": _dt.datetime, "datetime.datetime.strptime": _dt.datetime.strptime, "datetime.strptime": _dt.datetime.strptime,
+                  "datetime.timedelta": _dt.timedelta, "datetime.date": _dt.date}[ckey]
+            try:
+                return fn(*args, **kwargs)
+            except Exception as ex:  # pylint: disable=W0718
+                raise Raised(type(ex).__name__)
         if ckey == "itertools.count" and not any(isinstance(a, (Residual, Obj)) for a in args):
             # an unbounded counter: enough values for any loop the budget allows (a loop that exhausts them is undecidable anyway)
             start = args[0] if args else 0
